@@ -158,3 +158,58 @@ Definition abs (r : registry) : sstate :=
   mkss (map (abs_feature r) (features r)) (map abs_command (commands r)).
 
 Definition is_error (x : result) : bool := match x with Ok => false | Error _ => true end.
+
+(* ---------------------------------------------------------------- the two-phase API *)
+(* Creating a decorator (server.feature(..) / command(..) / thread()) is never refused and changes
+   nothing; everything the property says about a "registration" is about the APPLICATION of a
+   decorator to a function, whatever happened between its creation and its application. *)
+Definition sfind (n : name) (l : list sreg) : option sreg :=
+  find (fun g => name_eqb n (g_name g)) l.
+
+(* the function object after an accepted call: a registration labels it; thread() marks the
+   registered callable, which is the function itself unless the server is injected *)
+Definition spec_fn_w (s : sstate) (x : op) : func :=
+  match x with
+  | OpThread f =>
+    match f_reg f with
+    | None => assign_thread_attr_f f
+    | Some (k, n) =>
+      match sfind n (match k with RFeature => s_features s | RCommand => s_commands s end) with
+      | Some g => if g_inject g then f else assign_thread_attr_f f
+      | None => f
+      end
+    end
+  | _ => spec_fn x
+  end.
+
+Record sworld := mksw { sw_state : sstate; sw_decs : list dec; sw_fns : list func }.
+Definition sw_empty : sworld := mksw s_empty [] [].
+
+Definition spec_wstep (w : sworld) (x : wop) : sworld * bool :=
+  match x with
+  | WDef f => (mksw (sw_state w) (sw_decs w) (sw_fns w ++ [f]), false)
+  | WMake d => (mksw (sw_state w) (sw_decs w ++ [d]) (sw_fns w), false)
+  | WApply i j =>
+    match nth_error (sw_decs w) i, nth_error (sw_fns w) j with
+    | Some d, Some f =>
+      let x := op_of d f in
+      let '(s', refused) := spec_step (sw_state w) x in
+      (mksw s' (sw_decs w)
+            (if refused then sw_fns w else set_nth j (spec_fn_w (sw_state w) x) (sw_fns w)), refused)
+    | _, _ => (w, true)
+    end
+  end.
+
+Fixpoint spec_wrun (w : sworld) (xs : list wop) : list (sworld * bool) :=
+  match xs with
+  | [] => []
+  | x :: t => let '(w', b) := spec_wstep w x in (w', b) :: spec_wrun w' t
+  end.
+
+Definition dec_ok (d : dec) : bool :=
+  match d with DFeature _ o => oracle_agrees o | _ => true end.
+
+Definition wop_ok (x : wop) : bool :=
+  match x with WDef f => func_ok f | WMake d => dec_ok d | WApply _ _ => true end.
+
+Definition abs_world (w : world) : sworld := mksw (abs (w_reg w)) (w_decs w) (w_fns w).
